@@ -11,46 +11,46 @@ def arena(module, profiles, fields, nontrivial, **kw):
 
 SPECS = {
     "C01": arena("BumpVerif.Props.C01",
-                 [("general", 120, 45, "some"), ("allocapi", 80, 45, "some"), ("init", 60, 40, "some"), ("resets", 40, 40, "none")],
+                 [("general", 480, 45, "some"), ("allocapi", 320, 45, "some"), ("init", 240, 40, "some"), ("resets", 160, 40, "none")],
                  ["res", "chunks", "obs"],
                  ["alloc", "val", "atw", "slice", "tfill", "aalloc", "afree", "agrow", "ashrink", "sendalloc", "reset"],
                  shape=True, placement=True, upward_only=True),
     "C02": arena("BumpVerif.Props.C02",
-                 [("allocapi", 120, 45, "some"), ("general", 100, 45, "some"), ("init", 60, 40, "none")],
+                 [("allocapi", 480, 45, "some"), ("general", 400, 45, "some"), ("init", 240, 40, "none")],
                  ["res"], ["agrow", "ashrink", "write", "val", "slice", "tfill", "atw", "afree"], placement=True),
     "C03": arena("BumpVerif.Props.C03",
-                 [("resets", 120, 45, "some"), ("faults", 100, 45, "all"), ("general", 80, 45, "some")],
+                 [("resets", 480, 45, "some"), ("faults", 400, 45, "all"), ("general", 320, 45, "some")],
                  ["evt"], ["new", "reset", "drop", "alloc", "aalloc", "agrow", "sendalloc"], frees_only=True),
     "C04": arena("BumpVerif.Props.C04",
-                 [("general", 120, 45, "some"), ("allocapi", 100, 45, "none"), ("sizes", 60, 40, "some")],
+                 [("general", 480, 45, "some"), ("allocapi", 400, 45, "none"), ("sizes", 240, 40, "some")],
                  ["res"], ["alloc", "val", "atw", "slice", "tfill", "aalloc", "agrow", "ashrink", "sendalloc", "new"],
                  shape=True, ctor_probe=True, placement=True),
     "C06": arena("BumpVerif.Props.C06",
-                 [("resets", 200, 45, "some"), ("limits", 60, 40, "none")],
+                 [("resets", 800, 45, "some"), ("limits", 240, 40, "none")],
                  ["res", "evt", "cap", "lim", "chunks", "it", "obs"], ["reset", "alloc", "val", "limit"], ops=["reset"]),
     "C07": arena("BumpVerif.Props.C07",
-                 [("limits", 220, 45, "some"), ("resets", 60, 40, "none")],
+                 [("limits", 880, 45, "some"), ("resets", 240, 40, "none")],
                  ["evt", "res"], ["limit", "alloc", "val", "aalloc", "agrow", "new", "reset"]),
     "C08": arena("BumpVerif.Props.C08",
-                 [("general", 120, 45, "some"), ("resets", 100, 45, "some"), ("limits", 60, 40, "none")],
+                 [("general", 480, 45, "some"), ("resets", 400, 45, "some"), ("limits", 240, 40, "none")],
                  ["ab", "abm"], ["new", "alloc", "reset", "limit", "aalloc", "agrow", "ashrink", "afree", "atw", "tfill"], placement=True),
     "C09": arena("BumpVerif.Props.C09",
-                 [("faults", 200, 45, "all"), ("sizes", 100, 40, "some"), ("limits", 60, 40, "all")],
+                 [("faults", 800, 45, "all"), ("sizes", 400, 40, "some"), ("limits", 240, 40, "all")],
                  ["res", "evt"], ["alloc", "val", "atw", "slice", "aalloc", "agrow", "ashrink", "new", "sendalloc"], impl_failure_only=True),
     "C10": arena("BumpVerif.Props.C10",
-                 [("uniform", 200, 45, "some"), ("general", 80, 45, "none"), ("init", 40, 40, "none")],
+                 [("uniform", 800, 45, "some"), ("general", 320, 45, "none"), ("init", 160, 40, "none")],
                  ["it"], ["alloc", "val", "atw", "tfill", "slice", "reset"], placement=True),
     "C11": arena("BumpVerif.Props.C11",
-                 [("init", 260, 45, "some"), ("uniform", 40, 40, "none")],
+                 [("init", 1040, 45, "some"), ("uniform", 160, 40, "none")],
                  ["res", "cap", "evt"], ["atw", "tfill", "alloc"], ops=["atw", "tfill", "alloc"]),
     "C12": arena("BumpVerif.Props.C12",
-                 [("allocapi", 260, 50, "some"), ("general", 40, 40, "none")],
+                 [("allocapi", 1040, 50, "some"), ("general", 160, 40, "none")],
                  ["res", "cap"], ["aalloc", "afree", "agrow", "ashrink"], ops=["aalloc", "afree", "agrow", "ashrink"], placement=True),
     "C18": arena("BumpVerif.Props.C18",
-                 [("capacity", 200, 45, "none"), ("general", 60, 45, "some")],
+                 [("capacity", 800, 45, "none"), ("general", 240, 45, "some")],
                  ["evt", "cap"], ["new", "alloc", "val", "slice"], no_limit_only=True, cap_overstate_only=True),
     "C19": arena("BumpVerif.Props.C19",
-                 [("sizes", 260, 40, "some")],
+                 [("sizes", 1040, 40, "some")],
                  ["res", "evt"], ["new", "alloc", "slice", "tfill", "aalloc", "agrow"]),
 }
 
